@@ -409,12 +409,15 @@ pub fn exec(s: &mut CrdtSession, toks: &[&str], enc: TextEncoding) -> Vec<String
             let d = s.replicas.get_mut(toks[1]).unwrap();
             if !closed(d) { return vec!["err open-tx".into()]; }
             d.isolate(&parse_hashes(toks[2]));
-            vec![format!("ok heads={}", show_hashes(&d.get_heads()))]
+            let hs = d.get_heads();
+            s.iso_snap.insert(toks[1].to_string(), hs.clone());
+            vec![format!("ok heads={}", show_hashes(&hs))]
         }
         "crdt.patch.integrate" => {
             let d = s.replicas.get_mut(toks[1]).unwrap();
             if !closed(d) { return vec!["err open-tx".into()]; }
             d.integrate();
+            s.iso_snap.remove(toks[1]);
             vec![format!("ok heads={}", show_hashes(&d.get_heads()))]
         }
         // crdt.patch.loadlog r : load(save(r)) with a patch log → patches from the empty document
@@ -882,6 +885,48 @@ fn scripted_expose_then_new_actor(r: &mut Rng, sess: &mut Session, out: &mut Out
     run_cmd("diff p0 - cur", sess, out, ctx);
 }
 
+/// scripted family: SEVERAL objects are exposed by one diff (three or four sibling objects overwritten or their
+/// parent deleted in one change, after an edit inside one of them; or outer/middle/inner nesting with an edit in
+/// the innermost), diffed forwards and backwards between all the recorded points
+fn scripted_many_exposed(r: &mut Rng, sess: &mut Session, out: &mut Out, ctx: &mut Ctx) {
+    out.count("cases_scripted_many_exposed");
+    run_cmd(&format!("crdt.new r0 cp {}", hex::encode([0x33u8, r.next() as u8])), sess, out, ctx);
+    let nested = r.chance(1, 3);
+    let mut inner: Vec<(String, bool)> = vec![];   // (object id, is list)
+    let mut parent = "_".to_string();
+    if nested {
+        for k in ["6f", "6d", "69"] {
+            let res = exec_line(sess, &format!("crdt.putobj r0 {} m{} {}", parent, k, if k == "69" { "L" } else { "M" }), out);
+            parent = res[0].strip_prefix("ok ").unwrap_or("_").to_string();
+        }
+        inner.push((parent.clone(), true));
+        run_cmd(&format!("crdt.ins r0 {} 0 s78", parent), sess, out, ctx);
+    } else {
+        let n = r.range(3, 5);
+        for k in 0..n {
+            let is_list = r.chance(2, 3);
+            let res = exec_line(sess, &format!("crdt.putobj r0 _ m6{} {}", k + 1, if is_list { "L" } else { "M" }), out);
+            let o = res[0].strip_prefix("ok ").unwrap_or("_").to_string();
+            if is_list { run_cmd(&format!("crdt.ins r0 {} 0 s78", o), sess, out, ctx); } else { run_cmd(&format!("crdt.put r0 {} m6b i{}", o, k), sess, out, ctx); }
+            inner.push((o, is_list));
+        }
+    }
+    run_cmd("crdt.commit r0", sess, out, ctx);                       // change 0
+    // an edit inside one (often the last) of them, sometimes in two
+    let pick = if r.chance(2, 3) { inner.len() - 1 } else { r.below(inner.len() as u64) as usize };
+    let (o, is_list) = inner[pick].clone();
+    if is_list { run_cmd(&format!("crdt.ins r0 {} 1 s79", o), sess, out, ctx); } else { run_cmd(&format!("crdt.put r0 {} m6e c3", o), sess, out, ctx); }
+    if inner.len() > 1 && r.chance(1, 3) { let (o2, l2) = inner[0].clone(); if l2 { run_cmd(&format!("crdt.ins r0 {} 0 s7a", o2), sess, out, ctx); } else { run_cmd(&format!("crdt.inc r0 {} m6b 2", o2), sess, out, ctx); } }
+    run_cmd("crdt.commit r0", sess, out, ctx);                       // change 1
+    // everything is overwritten / the parent deleted in ONE change
+    if nested { run_cmd("crdt.del r0 _ m6f", sess, out, ctx); }
+    else { for k in 0..inner.len() { if r.chance(1, 4) { run_cmd(&format!("crdt.del r0 _ m6{}", k + 1), sess, out, ctx); } else { run_cmd(&format!("crdt.put r0 _ m6{} i{}", k + 1, k), sess, out, ctx); } } }
+    run_cmd("crdt.commit r0", sess, out, ctx);                       // change 2
+    for (a, b) in [("2", "0"), ("2", "1"), ("0", "2"), ("1", "2"), ("1", "0"), ("-", "1")] {
+        run_cmd(&format!("diff r0 {} {}", a, b), sess, out, ctx);
+    }
+}
+
 fn idxs(r: &mut Rng, n: usize, k: usize) -> String {
     (0..k).map(|_| r.below(n as u64).to_string()).collect::<Vec<_>>().join(",")
 }
@@ -899,6 +944,7 @@ pub fn generate(r: &mut Rng, opts: &BTreeMap<String, String>, sess: &mut Session
     }
     if r.chance(1, 5) { return scripted_batch(r, sess, out, &mut ctx); }
     if r.chance(1, 10) { return scripted_expose_then_new_actor(r, sess, out, &mut ctx); }
+    if r.chance(1, 10) { return scripted_many_exposed(r, sess, out, &mut ctx); }
     if cfg!(feature = "e_richtext") && r.chance(1, 6) { return scripted_blocks(r, sess, out, &mut ctx); }
     let enc = ["cp", "utf8", "utf16"][r.below(3) as usize];
     let mut actors: Vec<Vec<u8>> = (0..10).map(|i| vec![0x10 * (10 - i as u8) + r.below(8) as u8, r.next() as u8]).collect();
